@@ -47,6 +47,10 @@ class EFLRSetsDict(defaultdict):
                 set_dict[eflr_set.set_name] = set_dict.pop(eflr_set.set_name)
             return False
         else:
+            if eflr_set.n_items:
+                # the set is new to this structure, but it is not empty: its items were added to another logical file
+                raise RuntimeError(f"{eflr_set} already holds objects of another logical file; "
+                                   f"please specify a different 'set_name' for the objects of each logical file")
             self[eflr_set.__class__][eflr_set.set_name] = eflr_set
             return True
 
